@@ -33,6 +33,8 @@ TEMPLATES = {
     "SiT": "Simulate: Temp = 5 degC", "SoT": "Simulate off: Temp",      # simulation with a unit (C16/C36)
     # C10/C11: condition on the hardware-fed tag In1, short variants
     "WaI": "Watch: In1 > 1", "SiI": "Simulate: In1 = 0", "L2": "Long: 2", "W1": "Wait: 0.1s",
+    "SiL7": "Simulate: Level = 7",      # ... and to another value (then back to the real one with SiL: C36)
+    "SoL": "Simulate off: Level",
     "FB": "FinBoom",      # UOD command (two iterations) whose finalizer raises (C11)
     "MC": "Macro: C", "CC": "Call macro: C",      # a third macro (C41: cycle closed by a later call of a body)
     "SiL": "Simulate: Level = 5",      # simulated value == real value; Level feeds the derived tag Twice (C10)
